@@ -13,15 +13,14 @@ page it held *before*; a nested read that finds such a slot is the library's
 "Infinite read recursion" (NODATA).  The callback is user code and may read
 through the same context before it delivers the page (e.g. to look the machine
 frame of the page up in a table that lives in memory itself) — that is a nested
-`get_cache_buf`.  The `fix:` commit "bound the nesting of get-page callbacks"
-counts the callbacks in progress (`cache.nesting`) and refuses to start one more
-than `MAX_READ_NESTING`; the model carries the remaining budget
-`fuel = MAX_READ_NESTING - nesting`, on which the recursion is structural.
-
-A nested fetch picks its slot by the same rule, i.e. it may recycle the very slot
-whose fetch is in progress (the MRU chain is only updated after a successful
-fetch).  The model threads the cache state through the callback, so this
-clobbering is reproduced, not idealised away.
+`get_cache_buf`.  The repaired code (`fix:` "a nested read must not recycle a read cache slot that is
+being filled") marks the slot (`filling`) for the duration of the callback; a nested
+fetch recycles the least recently used slot that is **not** being filled and fails
+with NODATA ("Too many nested page reads") when all `READ_CACHE_SLOTS` are.  (Before,
+the nested fetch recycled the slot in progress: the outer callback then stored its
+page over the buffer the nested read had obtained, and `put_page` was never called
+for it.)  The model threads the cache state through the callback and keeps the ledger
+of delivered and returned buffers (`got`, `put`).
 
 The callback family covered: before delivering the page of address `a` it reads
 the 64-bit object at `pre a` (if any) through the context with
@@ -36,15 +35,14 @@ open Kdf.Model.Pgt
 
 /-- `READ_CACHE_SLOTS` of addrxlat-priv.h -/
 abbrev READ_CACHE_SLOTS : Nat := 4
-/-- `MAX_READ_NESTING` of addrxlat-priv.h -/
-abbrev MAX_READ_NESTING : Nat := 16
 abbrev PAGE : Nat := 4096
 
-/-- the fields of `addrxlat_buffer_t` the slot logic looks at -/
+/-- the fields of `struct read_cache_slot` the slot logic looks at -/
 structure Slot where
   addr : FullAddr := ⟨0, 0⟩
   size : Nat := 0
   ptr : Bool := false            -- `buffer.ptr != NULL`
+  filling : Bool := false        -- the get-page callback for this slot is running
   deriving DecidableEq, Repr, Inhabited
 
 /-- `slots`: by slot number; `order`: slot numbers from `cache->mru` along `next`
@@ -67,8 +65,14 @@ def setSlot (c : RCache) (i : Nat) (s : Slot) : RCache := { c with slots := c.sl
 /-- `touch_cache_slot` -/
 def touch (c : RCache) (i : Nat) : RCache := { c with order := i :: c.order.filter (· ≠ i) }
 
-/-- `ctx->cache.mru->prev` -/
-def lru (c : RCache) : Nat := c.order.getLastD 0
+/-- a slot the ring names that is not being filled (the bound test is vacuous for the C ring,
+whose members are the slots themselves) -/
+def usable (c : RCache) (i : Nat) : Bool := decide (i < c.slots.length) && !(slotAt c i).filling
+
+/-- the `while (slot->filling)` walk from `cache.mru->prev` along `prev`: the least recently
+used slot that is not being filled; `none` when the walk arrives at `cache.mru` with every slot
+being filled -/
+def pick (c : RCache) : Option Nat := c.order.reverse.find? (usable c)
 
 /-- what the callback delivers for a page -/
 inductive PageRes
@@ -88,53 +92,79 @@ structure Out where
   cache : RCache
   calls : Nat                    -- get-page callbacks started
   depth : Nat                    -- deepest nesting of callbacks reached (0: none ran)
+  got : Nat                      -- buffers the callbacks delivered (status OK)
+  put : Nat                      -- `put_page` calls on delivered buffers
+  stuck : Bool := false          -- recursion budget of the model exhausted (not a C behaviour; `read_not_stuck`)
   deriving Repr, Inhabited
 
 /-- the status `get_cache_buf` returns -/
 def Out.status (o : Out) : XStatus := match o.res with | .ok _ => .ok | .error e => e
 
 /-- the `out:` label of `get_cache_buf` -/
-def finish (c : RCache) (i calls depth : Nat) : Out :=
-  if (slotAt c i).ptr then ⟨.ok i, touch c i, calls, depth⟩
-  else ⟨.error .nodata, c, calls, depth⟩                  -- "Infinite read recursion"
+def finish (c : RCache) (i calls depth got put : Nat) (stuck : Bool) : Out :=
+  if (slotAt c i).ptr then ⟨.ok i, touch c i, calls, depth, got, put, stuck⟩
+  else ⟨.error .nodata, c, calls, depth, got, put, stuck⟩          -- "Infinite read recursion"
 
-/-- the callback failed: `slot->buffer.size = 0; return status;` -/
-def failed (c : RCache) (i : Nat) (st : XStatus) (calls depth : Nat) : Out :=
-  ⟨.error st, setSlot c i { slotAt c i with size := 0 }, calls, depth⟩
+/-- the callback failed: `slot->filling = 0; slot->buffer.size = 0; return status;` -/
+def failed (c : RCache) (i : Nat) (st : XStatus) (calls depth got put : Nat) (stuck : Bool) : Out :=
+  ⟨.error st, setSlot c i { slotAt c i with size := 0, filling := false }, calls, depth, got, put, stuck⟩
 
 def capsHas (caps as : Nat) : Bool := decide (as < 3) && (caps / 2^as % 2 == 1)
 
-/-- `get_cache_buf`; `fuel` = `MAX_READ_NESTING - cache.nesting` -/
+/-- a buffer the cache owes a `put_page`: `size != 0`, and the slot is not one whose old buffer
+has already been put because it is being filled again -/
+def Slot.held (s : Slot) : Nat := if s.size ≠ 0 ∧ s.filling = false then 1 else 0
+def held (c : RCache) : Nat := (c.slots.map Slot.held).sum
+/-- slots not being filled -/
+def Slot.free (s : Slot) : Nat := if s.filling then 0 else 1
+def free (c : RCache) : Nat := (c.slots.map Slot.free).sum
+
+/-- the callback's own read through the context, in the cache state `c1` it sees -/
+def preRead (cb : Cb) (rec : RCache → FullAddr → Out) (c1 : RCache) (a : FullAddr) : Out :=
+  match cb.pre a with
+  | none => ⟨.ok 0, c1, 0, 0, 0, 0, false⟩
+  | some e =>
+    if capsHas cb.readCaps e.as then rec c1 e
+    else ⟨.error .nometh, c1, 0, 0, 0, 0, false⟩            -- `read64` → `internal_op` without a system
+
+/-- the rest of the callback and of `get_cache_buf` after the callback's own read `pre`;
+`i` the slot being filled, `p` = 1 if its old content was given back with `put_page` -/
+def deliver (cb : Cb) (a : FullAddr) (i p : Nat) (pre : Out) : Out :=
+  match pre.res with
+  | .error st => failed pre.cache i st (pre.calls + 1) (pre.depth + 1) pre.got (pre.put + p) pre.stuck
+  | .ok _ =>
+    match cb.res a with
+    | .fail st => failed pre.cache i st (pre.calls + 1) (pre.depth + 1) pre.got (pre.put + p) pre.stuck
+    | .data =>
+      finish (setSlot pre.cache i ⟨⟨a.addr / PAGE * PAGE, a.as⟩, PAGE, true, false⟩) i
+        (pre.calls + 1) (pre.depth + 1) (pre.got + 1) (pre.put + p) pre.stuck
+    | .noptr =>
+      finish (setSlot pre.cache i ⟨⟨a.addr / PAGE * PAGE, a.as⟩, PAGE, false, false⟩) i
+        (pre.calls + 1) (pre.depth + 1) (pre.got + 1) (pre.put + p) pre.stuck
+
+/-- the slot as `get_cache_buf` leaves it for the callback: `put_page` of the old content done,
+`addr` / `ptr` reset, the old `size` kept, marked as being filled -/
+def beginFill (c : RCache) (i : Nat) (a : FullAddr) : RCache :=
+  setSlot c i { addr := a, size := (slotAt c i).size, ptr := false, filling := true }
+
+/-- `get_cache_buf`.  The C function has no counter: every level of nesting marks one more slot
+as being filled and the slot choice fails when none is left.  `fuel` only makes the recursion
+structural; `Kdf.Props.C09.read_not_stuck` shows that it never runs out when it is at least the
+number of slots not being filled. -/
 def getBuf (cb : Cb) : Nat → RCache → FullAddr → Out
   | fuel, c, a =>
     match c.slots.findIdx? (·.covers a) with
-    | some i => finish c i 0 0
+    | some i => finish c i 0 0 0 0 false
     | none =>
-      match fuel with
-      | 0 => ⟨.error .nodata, c, 0, 0⟩                     -- "Too many nested page reads"
-      | fuel+1 =>
-        let i := lru c
-        -- put_page of the old content (no effect on the slot), then addr / ptr are reset; size is kept
-        let c1 := setSlot c i { addr := a, size := (slotAt c i).size, ptr := false }
-        -- the callback runs: first its own read through the context …
-        let pre : Out :=
-          match cb.pre a with
-          | none => ⟨.ok 0, c1, 0, 0⟩
-          | some e =>
-            if capsHas cb.readCaps e.as then getBuf cb fuel c1 e
-            else ⟨.error .nometh, c1, 0, 0⟩               -- `read64` → `internal_op` without a system
-        match pre.res with
-        | .error st => failed pre.cache i st (pre.calls + 1) (pre.depth + 1)
-        | .ok _ =>
-          -- … then the page
-          match cb.res a with
-          | .fail st => failed pre.cache i st (pre.calls + 1) (pre.depth + 1)
-          | .data =>
-            finish (setSlot pre.cache i ⟨⟨a.addr / PAGE * PAGE, a.as⟩, PAGE, true⟩) i (pre.calls + 1) (pre.depth + 1)
-          | .noptr =>
-            finish (setSlot pre.cache i ⟨⟨a.addr / PAGE * PAGE, a.as⟩, PAGE, false⟩) i (pre.calls + 1) (pre.depth + 1)
+      match pick c with
+      | none => ⟨.error .nodata, c, 0, 0, 0, 0, false⟩      -- "Too many nested page reads"
+      | some i =>
+        match fuel with
+        | 0 => ⟨.error .nodata, c, 0, 0, 0, 0, true⟩
+        | fuel+1 =>
+          deliver cb a i (slotAt c i).held (preRead cb (getBuf cb fuel) (beginFill c i a) a)
 
 /-- a read from outside (no callback in progress) -/
-def read (cb : Cb) (c : RCache) (a : FullAddr) : Out := getBuf cb MAX_READ_NESTING c a
+def read (cb : Cb) (c : RCache) (a : FullAddr) : Out := getBuf cb c.slots.length c a
 
 end Kdf.Model.RCache
